@@ -93,6 +93,12 @@ def _xv_value(kind, enc, version=0):
                 np.array([num + 10.0, num + 11.0, num + 12.0]))
     if kind == "list":
         return [[num, num + 1.0], [num + 2.0, num + 3.0]]
+    if kind == "list1":
+        # a list with a single entry (it stays a list)
+        return [num]
+    if kind == "mixtuple":
+        # entries of different types (they keep their types)
+        return (num, "<" + enc + ">", int(num) % 97, True)
     if kind == "dict":
         return {"v": num, "w": num + 0.5}
     if kind == "dataset":
